@@ -305,6 +305,14 @@ def writers(ctx, rng, xr, ws, d):
     from vf.checks.c11 import make_ds
     fmt = str(rng.choice(["swan", "swan_grid", "octopus", "json", "netcdf", "netcdf_grid", "ww3", "funwave", "orcaflex"]))
     ds, kinds, order = make_ds(rng, xr, fmt if fmt != "orcaflex" else "swan")
+    if rng.random() < 0.3:
+        # measured / interpolated spectra can carry slightly negative densities: a writer must not "repair" the caller's data
+        v_ = ds["efth"].values
+        if v_.flags.writeable and v_.size:
+            fl_ = v_.reshape(-1)
+            for j_ in rng.choice(fl_.size, size=min(fl_.size, 6), replace=False):
+                fl_[j_] = -0.01 * abs(fl_[j_]) - 1e-6 if np.isfinite(fl_[j_]) else fl_[j_]
+            ds["efth"].values = fl_.reshape(v_.shape)
     ds.attrs["title"] = "caller"
     ds["efth"].encoding["caller"] = True
     ds["time"].encoding["units"] = "hours since 2000-01-01"
